@@ -1,0 +1,83 @@
+// Copyright 2015-2024 Swim Inc.
+//
+// Licensed under the Apache License, Version 2.0 (the "License");
+// you may not use this file except in compliance with the License.
+// You may obtain a copy of the License at
+//
+//     http://www.apache.org/licenses/LICENSE-2.0
+//
+// Unless required by applicable law or agreed to in writing, software
+// distributed under the License is distributed on an "AS IS" BASIS,
+// WITHOUT WARRANTIES OR CONDITIONS OF ANY KIND, either express or implied.
+// See the License for the specific language governing permissions and
+// limitations under the License.
+
+//! Thin, add-only wrappers exposing crate-private operations to the external verification
+//! harness. Only compiled with the `verif_hooks` feature; nothing here changes behaviour.
+
+/// Crate-private operations of the lanes (the ones the handler actions call).
+pub mod lanes {
+    use std::hash::Hash;
+
+    use uuid::Uuid;
+
+    use crate::lanes::{MapLane, ValueLane};
+    use crate::map_storage::MapOps;
+
+    pub use crate::lanes::supply::verif::{supply_push, supply_sync};
+
+    /// `ValueLane::set`
+    pub fn value_set<T>(lane: &ValueLane<T>, value: T) {
+        lane.set(value)
+    }
+
+    /// `ValueLane::sync`
+    pub fn value_sync<T>(lane: &ValueLane<T>, id: Uuid) {
+        lane.sync(id)
+    }
+
+    /// `MapLane::update`
+    pub fn map_update<K, V, M>(lane: &MapLane<K, V, M>, key: K, value: V)
+    where
+        K: Clone + Eq + Hash,
+        M: MapOps<K, V>,
+    {
+        lane.update(key, value)
+    }
+
+    /// `MapLane::remove`
+    pub fn map_remove<K, V, M>(lane: &MapLane<K, V, M>, key: &K)
+    where
+        K: Clone + Eq + Hash,
+        M: MapOps<K, V>,
+    {
+        lane.remove(key)
+    }
+
+    /// `MapLane::clear`
+    pub fn map_clear<K, V, M>(lane: &MapLane<K, V, M>)
+    where
+        K: Clone + Eq + Hash,
+        M: MapOps<K, V>,
+    {
+        lane.clear()
+    }
+
+    /// `MapLane::sync`
+    pub fn map_sync<K, V, M>(lane: &MapLane<K, V, M>, id: Uuid)
+    where
+        K: Clone + Eq + Hash,
+        M: MapOps<K, V>,
+    {
+        lane.sync(id)
+    }
+}
+
+/// The queues that decide which events a map lane or store writes next.
+pub mod queues {
+    pub use crate::event_queue::{to_operation, Action, EventQueue};
+    pub use crate::lanes::{
+        VerifSyncQueue as SyncQueue, VerifToWrite as ToWrite, VerifWriteQueues as WriteQueues,
+    };
+    pub use crate::map_storage::{drop_or_take, DropOrTake, MapEventQueue, MapOps};
+}
